@@ -191,3 +191,170 @@ class FlattenNameMap(Contract):
 def units():
     from pyvc.verify import Unit
     return [Unit(FlattenNameMap(), {})]
+
+
+# ---------------------------------------------------------------------------------------------------------------------
+# validate_node_name_map: "missing required columns are rejected with ValueError"
+VN = "funtracks.import_export._validation.validate_node_name_map"
+VS = "funtracks.import_export._validation.validate_spatial_dims_in_name_map"
+c_ = z3.Const("c!m", Key)
+
+
+class KeyedNameMap(NameMap):
+    """NameMap with lookup by key: the keys of the n items are pairwise distinct, pos is the inverse of ks"""
+
+    def __init__(self, ctx):
+        super().__init__(ctx)
+        self.pos = ctx.fresh_fun("nm_pos", Key, Int)
+        ctx.assume(forall([i_], IMP(AND(0 <= i_, i_ < self.n), self.pos(self.ks(i_)) == i_)))
+
+    def has(self, k):
+        k = to_z3(k, Key)
+        return AND(0 <= self.pos(k), self.pos(k) < self.n, self.ks(self.pos(k)) == k)
+
+    def at(self, k):
+        return self.V(self.pos(to_z3(k, Key)))
+
+    def m_contains(self, I, k):
+        return Sym(self.has(k))
+
+    def do_get(self, I, k, default=None):
+        if default is not None:
+            raise Unsupported("name_map.get with a default")
+        return Sym(z3.If(self.has(k), self.at(k), VNone))
+
+    def m_getitem(self, I, k):
+        if not I.guard(self.has(k), "key in name_map"):
+            from pyvc.values import BuiltinExc, PyRaise
+            raise PyRaise(BuiltinExc("KeyError", (k,)))
+        return Sym(self.at(k))
+
+
+class Importable(ModelObj):
+    """importable_node_props: a list of column names, abstracted to its set (exact for `in` and emptiness)"""
+
+    type_names = ("list",)
+
+    def __init__(self, ctx):
+        self.mem = ctx.fresh_fun("importable", Key, z3.BoolSort())
+        self.nonempty = ctx.fresh("importable_nonempty", z3.BoolSort())
+        w = ctx.fresh("some_col", Key)
+        ctx.assume(IMP(self.nonempty, self.mem(w)))
+        ctx.assume(IMP(z3.Not(self.nonempty), forall([c_], z3.Not(self.mem(c_)))))
+
+    def has_val(self, v):
+        """membership of a mapping value (None / str): only a string can be a column name"""
+        return AND(is_VKey(v), self.mem(kv(v)))
+
+    def m_contains(self, I, x):
+        e = to_z3(x)
+        return Sym(self.has_val(e) if e.sort() == Val else self.mem(to_z3(x, Key)))
+
+    def m_truthy(self, I):
+        return I.ctx.branch(self.nonempty, "importable props non-empty")
+
+
+def bad_item(M, P, i):
+    """item i of the mapping names a column the source does not have (or is None)"""
+    v = M.V(i)
+    j3 = z3.Int("j!b")
+    lst = AND(M.is_list(i), z3.Exists([j3], AND(0 <= j3, j3 < M.LL(ov(v)), z3.Not(P.mem(M.CC(ov(v), j3))))))
+    return OR(lst, AND(z3.Not(M.is_list(i)), z3.Not(P.has_val(v))))
+
+
+def _len_of(v):
+    return z3.IntVal(len(v)) if isinstance(v, list) else v.n
+
+
+class VOuter(LoopSpec):
+    props = ("C12",)
+    list_sorts = {"invalid_mappings": Key}
+
+    def __init__(self, M, P):
+        self.M, self.P, self.i = M, P, None
+
+    def havoc(self, I, fr, it, i, assigned):
+        for nm in ("std_key", "source_prop", "prop"):
+            fr.env.pop(nm, None)
+        fr.env["invalid_mappings"] = SymList.fresh(I.ctx, "invalid", Key)
+        self.i = i
+
+    def inv(self, I, fr, it, i):
+        i3 = z3.Int("i!b")
+        n = _len_of(fr.env["invalid_mappings"])
+        return [("something was recorded iff an item so far names a missing column",
+                 (n > 0) == z3.Exists([i3], AND(0 <= i3, i3 < i, bad_item(self.M, self.P, i3))))]
+
+
+class VInner(LoopSpec):
+    props = ("C12",)
+
+    def __init__(self, M, P, outer):
+        self.M, self.P, self.outer = M, P, outer
+
+    def havoc(self, I, fr, it, i, assigned):
+        fr.env.pop("prop", None)
+        fr.env["invalid_mappings"] = SymList.fresh(I.ctx, "invalid", Key)
+
+    def inv(self, I, fr, it, j):
+        M, P, oi = self.M, self.P, self.outer.i
+        i3, j3 = z3.Ints("i!b j!c")
+        n = _len_of(fr.env["invalid_mappings"])
+        lid = ov(M.V(oi))
+        return [("something was recorded iff an earlier item or a column of this list so far is missing",
+                 (n > 0) == OR(z3.Exists([i3], AND(0 <= i3, i3 < oi, bad_item(M, P, i3))),
+                               z3.Exists([j3], AND(0 <= j3, j3 < j, z3.Not(P.mem(M.CC(lid, j3)))))))]
+
+
+class SpatialDimsAssumed(Contract):
+    """call-site contract of validate_spatial_dims_in_name_map: reads only; returns None or raises ValueError"""
+    qualname = VS
+
+    def apply(self, I, args, kw):
+        from pyvc.values import BuiltinExc, PyRaise
+        if I.ctx.branch(I.ctx.fresh("spatial_dims_rejects", z3.BoolSort()), "spatial dims check rejects"):
+            raise PyRaise(BuiltinExc("ValueError", ("spatial dims",)))
+        return None
+
+
+class ValidateNodeNameMap(Contract):
+    qualname = VN
+    props = ("C12",)
+
+    def run(self, I, cfg):
+        from pyvc.values import exc_names
+        ctx = I.ctx
+        M = KeyedNameMap(ctx)
+        P = Importable(ctx)
+        R = SymList.fresh(ctx, "required", Key)
+        has_seg = ctx.fresh("has_segmentation", z3.BoolSort())
+        I.ext["model.val_isinstance"] = lambda I_, a, k: {"list": is_VOpq(a[0].e), "str": is_VKey(a[0].e)}[a[1]]
+        I.ext["model.val_iter"] = lambda I_, a, k: M.list_view(a[0])
+        I.ext["model.val_len"] = lambda I_, a, k: Sym(M.LL(ov(a[0].e)))
+        ctx.contracts[VS] = SpatialDimsAssumed()
+        outer = VOuter(M, P)
+        ctx.loopspecs[(VN, 0)] = outer
+        ctx.loopspecs[(VN, 1)] = VInner(M, P, outer)
+        feats = None if cfg.get("features") == "none" else Sym(ctx.fresh("available_features", Val))
+        if feats is not None:
+            ctx.assume(z3.Not(is_VNone(feats.e)))
+        out = call_real(I, VN, [M, P, R], {"available_features": feats, "ndim": Sym(ctx.fresh("ndim", Int)), "has_segmentation": Sym(has_seg)})
+        q = "C12/validate_node_name_map"
+        r_, i3, j3 = z3.Ints("r!v i!v j!v")
+        if out[0] == "raise":
+            ctx.oblige(f"{q}/raises-only-ValueError", z3.BoolVal("ValueError" in exc_names(out[1])), props=self.props, note=str(out[1]))
+            return out
+        ctx.oblige(f"{q}/ensures:accepted=>every-required-key-is-mapped-and-not-None",
+                   forall([r_], IMP(AND(0 <= r_, r_ < R.n), AND(M.has(R.F(r_)), z3.Not(is_VNone(M.at(R.F(r_))))))), props=self.props)
+        ctx.oblige(f"{q}/ensures:accepted=>every-mapped-column-exists-in-the-source(string items)",
+                   IMP(P.nonempty, forall([i3], IMP(AND(0 <= i3, i3 < M.n, M.is_str(i3)), P.mem(kv(M.V(i3)))))), props=self.props)
+        ctx.oblige(f"{q}/ensures:accepted=>every-listed-column-exists-in-the-source(list items)",
+                   IMP(P.nonempty, forall([i3, j3], IMP(AND(0 <= i3, i3 < M.n, M.is_list(i3), 0 <= j3, j3 < M.LL(ov(M.V(i3)))),
+                                                         P.mem(M.CC(ov(M.V(i3)), j3))))), props=self.props)
+        ctx.oblige(f"{q}/ensures:accepted=>position-is-mapped-or-a-segmentation-is-given", OR(M.has("pos"), has_seg), props=self.props)
+        return out
+
+
+def units():  # noqa: F811
+    from pyvc.verify import Unit
+    return [Unit(FlattenNameMap(), {}), Unit(ValidateNodeNameMap(), {"features": "none"}), Unit(ValidateNodeNameMap(), {"features": "given"})]
